@@ -106,7 +106,8 @@ def translate(src):
         line = re.sub(r'\bNULL\b', 'None', line)
         out.append(line)
         i += 1
-    prelude = 'from mc import pyxrt as __rt\nfrom mc.pyxrt import UINT_MAX, parse_sentence\n'
+    prelude = ('from mc import pyxrt as __rt\nfrom mc.pyxrt import UINT_MAX, parse_sentence\n'
+               'deref = dereference = address = (lambda x: x)      # cython.operator idioms: objects stand for their own pointers\n')
     return prelude + '\n'.join(out)
 
 
